@@ -152,6 +152,45 @@ CHECKS = {
         'Trusts the integer-microsecond model and the stdlib datetime/'
         'zoneinfo; sub-microsecond second counts are not generated.',
         'DESIGN.md section 4 C12'),
+    'C16': (
+        'round trip / algebraic laws over generated text x codec tables '
+        '(Hypothesis), stdlib codecs as reference',
+        'exploration',
+        '11 codecs in several spellings x {strict, ignore, replace}: '
+        'safe_decode / safe_encode / to_utf8 compared with the stdlib codec '
+        'result, round trip where the codec is bijective on the text, type '
+        'contract and TypeError table (complete), to_slug alphabet, single '
+        'hyphens, idempotence and exact result on ASCII words. Sampled.',
+        'incoming is always passed explicitly (its default depends on the '
+        'process stdin); undecodable / unencodable inputs only have their '
+        'result type or exception class checked.',
+        'DESIGN.md section 4 C16'),
+    'C17': (
+        'round trip + order isomorphism (exhaustive boundary tuples) + own '
+        'PEP 440 comparison key as reference',
+        'exploration',
+        'Every component tuple of length 1-5 over {0,1,9,10,99,100,999} '
+        '(16 806) is enumerated for int/str/tuple round trips and order '
+        'isomorphism; is_compatible and VersionPredicate are compared with an '
+        'independent PEP 440 key over generated version pairs, a hand-written '
+        'ordering chain (all pairs) and 1-3-comparison predicates; malformed '
+        'predicates must raise ValueError.',
+        'The PEP 440 key is cross-checked against packaging in a side task '
+        '(disagreement = harness error); local version labels and digit-less '
+        'suffixes are not generated.',
+        'DESIGN.md section 4 C17'),
+    'C18': (
+        'reference operator table evaluated with exact rationals / code '
+        'points over grammar-generated specs',
+        'exploration',
+        'Per-operator tables (equal, adjacent, ordered operands; all four '
+        'bracket pairs with the value below/on/between/on/above the ends; '
+        '1-5 alternatives or list items; extra blanks) are enumerated, '
+        'larger operand spaces sampled with Hypothesis; a validate() guard '
+        'keeps generated specs inside the documented grammar.',
+        'Specs outside the documented grammar are not generated; the oracle '
+        'is the documented operator meaning written with Fractions.',
+        'DESIGN.md section 4 C18'),
     'C20': (
         'differential against whole-content computation (hashlib, slicing) + '
         'exhaustive errno injection',
